@@ -171,8 +171,13 @@ def identifier(ctx, rep, prog):
         from ..models import concrete_u64_parse
         bad = 0
         seen_inc = set()
-        for a in items:
-            for b in items:
+        # digit-only texts too large for u64 stay alphanumeric in this crate; how two of them compare is not judged against
+        # the byte order here (SemVer reads them as numbers) — they only take part in the order axioms below
+        oversized = [("s", "99999999999999999999"), ("s", "100000000000000000000"), ("s", "18446744073709551616"),
+                     ("s", "5x"), ("s", "2x")]
+        matrix = {}
+        for a in items + oversized:
+            for b in items + oversized:
                 out = {}
                 for key in (cmp_key, eq_key):
                     pol = Policy()
@@ -189,7 +194,10 @@ def identifier(ctx, rep, prog):
                 if out is None:
                     continue
                 got, geq = ordering_to_int(out[cmp_key]), out[eq_key]
+                matrix[(a, b)] = got
                 exp = ref(a, b)
+                if a in oversized and b in oversized and a[1].isdigit() and b[1].isdigit():
+                    exp = got if geq == (got == 0) else exp
                 if got == exp and geq == (exp == 0):
                     rep.ok("T-IDENT")
                 else:
@@ -199,7 +207,34 @@ def identifier(ctx, rep, prog):
                             "cmp says %s but == says %s" % (_o(got), geq)
                         rep.fail("T-IDENT", "%s|T-IDENT|representatives: %s" % (cmp_key, "order" if got != exp else "eq and cmp disagree"),
                                  "identifiers %r and %r: %s" % (a[1], b[1], what), example="1.0.0-%s vs 1.0.0-%s" % (a[1], b[1]))
-        rep.analysed_item("Identifier cmp / eq on %d x %d concrete class representatives" % (len(items), len(items)))
+        # order axioms on what the implementation itself answered: antisymmetry and transitivity (a cycle makes sort, max and
+        # every range comparison depend on the order of evaluation, whatever the intended order of the members is)
+        allitems = [x for x in items + oversized if (x, x) in matrix]
+        cyc = 0
+        for a in allitems:
+            for b in allitems:
+                if (a, b) not in matrix or (b, a) not in matrix:
+                    continue
+                if matrix[(a, b)] != -matrix[(b, a)]:
+                    cyc += 1
+                    if cyc <= 2:
+                        rep.fail("T-IDENT", "%s|T-IDENT|representatives: not antisymmetric" % cmp_key,
+                                 "cmp(%r, %r) = %s but cmp(%r, %r) = %s" % (a[1], b[1], _o(matrix[(a, b)]), b[1], a[1], _o(matrix[(b, a)])),
+                                 example="1.0.0-%s vs 1.0.0-%s" % (a[1], b[1]))
+                    continue
+                if matrix[(a, b)] >= 0:
+                    continue
+                for c in allitems:
+                    if matrix.get((b, c), 0) < 0 and (a, c) in matrix and matrix[(a, c)] >= 0:
+                        cyc += 1
+                        if cyc <= 2:
+                            rep.fail("T-IDENT", "%s|T-IDENT|representatives: not transitive" % cmp_key,
+                                     "%r < %r and %r < %r but cmp(%r, %r) = %s" % (a[1], b[1], b[1], c[1], a[1], c[1], _o(matrix[(a, c)])),
+                                     example="1.0.0-%s < 1.0.0-%s < 1.0.0-%s" % (a[1], b[1], c[1]))
+                    else:
+                        rep.ok("T-IDENT")
+        rep.analysed_item("Identifier cmp / eq on %d x %d concrete class representatives; order axioms on %d (with digit-only texts "
+                          "beyond u64)" % (len(items), len(items), len(allitems)))
 
 
 def _returns_identifier(prog, fn):
